@@ -87,6 +87,11 @@ func (reader *Reader) ReadTypedMsg() (types.ClientMessage, int, error) {
 	}
 
 	n, err := reader.ReadUntypedMsg()
+	if err == io.EOF {
+		// NOTE: the type byte has been read, the stream ended inside the message.
+		err = io.ErrUnexpectedEOF
+	}
+
 	if err != nil {
 		return typed, 0, err
 	}
@@ -107,6 +112,13 @@ func (reader *Reader) Slurp(size int) error {
 		reader.reset(reading)
 
 		n, err := io.ReadFull(reader.Buffer, reader.Msg)
+		if err == io.EOF {
+			// NOTE: the stream ended inside the announced message body; a bare
+			// io.EOF would be taken for a clean end of the stream (CopyReader.Read
+			// reports the end of the copy-in stream that way).
+			err = io.ErrUnexpectedEOF
+		}
+
 		if err != nil {
 			return err
 		}
